@@ -32,9 +32,39 @@ def _case(rng, s):
     return ''.join(c.upper() if rng.random() < 0.5 else c.lower() for c in s)
 
 
+CONT = ['\n', '\f', '\r', '\r\n']
+
+
+def g_str_items(rng, q):
+    """-> (flattened item encoding, body text): the items of `SItem` (lean/CssVerif/Lemmas/TokStrItems.lean)"""
+    other = "'" if q == '"' else '"'
+    pool = list(LETTERS) + list('0123456789 .-_%') + STR_EXTRA + [other]
+    codes, body = [], ''
+    for _ in range(rng.randint(0, 7)):
+        r = rng.random()
+        if r < 0.45:
+            c = rng.choice(pool)
+            codes += [0, ord(c)]
+            body += c
+        elif r < 0.75:
+            d = rng.choice([q, '\\', other, 'a', 'f', '4', '9', 'g', 'z', ' ', '\t', 'é', '(', '*'])
+            codes += [1, ord(d)]
+            body += '\\' + d
+        elif r < 0.9:
+            k = rng.randint(0, 3)
+            codes += [2, k]
+            body += '\\' + CONT[k]
+        else:
+            k = rng.randint(0, 3)
+            hx = ''.join(rng.choice('0123456789abcdefABCDEF') for _ in range(rng.randint(1, 6)))
+            codes += [3, k, ord(hx[0]), len(hx) - 1] + [ord(c) for c in hx[1:]]
+            body += '\\' + hx + CONT[k]
+    return codes, body
+
+
 def g_lexeme(rng):
     k = rng.choice(['num', 'ident', 'fixed', 'fast', 'pct', 'dim', 'hash', 'atkw', 'atkw',
-                    'str', 'str', 'fn', 'fn', 'uri', 'uri', 'ur', 'cmt', 'cmt', 'cdc'])
+                    'str', 'stri', 'stri', 'fn', 'fn', 'uri', 'uri', 'ur', 'cmt', 'cmt', 'cdc'])
     if k == 'num':
         d = _digits(rng)
         return 'num,%s' % enc(d), d, ('NUMBER', d)
@@ -70,6 +100,12 @@ def g_lexeme(rng):
         pool = list(LETTERS) + list('0123456789 .,;:{}#@-_%') + STR_EXTRA + [other]
         body = ''.join(rng.choice(pool) for _ in range(rng.randint(0, 8)))
         return 'str,%s,%s' % (enc(q), enc(body)), q + body + q, ('STRING', q + body + q)
+    if k == 'stri':
+        from harness.c05 import spec_string_value
+        q = rng.choice('"\'')
+        codes, body = g_str_items(rng, q)
+        text = q + body + q
+        return 'stri,%s,%s' % (enc(q), enc(codes)), text, ('STRING', spec_string_value(text))
     if k == 'fn':
         while True:
             s = _ident(rng, IDENT_START)
